@@ -95,9 +95,44 @@ def run(rep, tier, seed):
                     rep.violation("out-of-range", {"node": i, "bounds": [str(lo), str(hi)], "after": op},
                                   {"program": streams.ser(r["prog"]), "protocol": r["lines"], "impl": r["impl"]})
                     break
+    # ---- first-order tables (written in place: rows are overwritten by facts arriving between calls, by inference and by
+    # flush()): after EVERY call has_contradiction() must say exactly whether some row of some formula is crossed outside the
+    # same-region tolerance of its formula's alpha
+    import fol
+    nf = size(tier, 60, 1200)
+    fprogs = [streams.gen_fol_program(seed + 977, k, quant=(k % 3 == 2), crossed_p=0.25, mid_facts=0.7) for k in range(nf)]
+    for k, p in enumerate(fprogs):
+        if k % 4 == 1:
+            # contradiction, then flush(): nothing is crossed any more
+            p["ops"] = list(p["ops"]) + [("infer", 5), ("flush",), ("infer", 5)]
+    frecs, ffirst = streams.run_fol_stream(rep, "fol-contra", fprogs, {"contra"})
+    seen_contra = 0
+    for r in frecs:
+        if "crash" in r:
+            continue
+        alpha = {}
+        for line in r["lines"]:
+            if line.startswith("fnode "):
+                t = line.split()
+                alpha[int(t[1])] = parse_q([x for x in t if x.startswith("a=")][0][2:])
+        tab = None
+        for line, o in zip(r["lines"], r["impl"]):
+            if line.startswith("ftab "):
+                tab = fol.parse_tab(o)
+            elif line.startswith("fcontra") and tab is not None and o in ("c 0", "c 1"):
+                crossed = [(i, g, b) for i, rows in tab.items() for g, b in rows.items() if is_contra(alpha.get(i, Fr(1)), b[0], b[1])]
+                seen_contra += bool(crossed)
+                if (o == "c 1") != bool(crossed):
+                    rep.violation("fol-contradiction-flag",
+                                  {"problem": "has_contradiction() disagrees with the bounds the tables hold",
+                                   "has_contradiction": o, "crossed_rows": [(i, g, [str(b[0]), str(b[1])]) for i, g, b in crossed[:3]]},
+                                  {"program": streams.ser(r["prog"]), "protocol": r["lines"], "impl": r["impl"]})
+                    break
+    rep.extra["fol_snapshots_with_a_crossed_row"] = seen_contra
     rep.cov["rule"] = ("(a) exhaustive grid of (alpha, L, U) through Proposition.add_data/state/is_contradiction/has_contradiction; "
                        "non-trivial = on or next to a region boundary, or L > U; (b) every bound dumped after every call of random "
-                       "propositional programs (incl. contradictory data) checked for [0,1], has_contradiction compared with model")
+                       "propositional programs (incl. contradictory data) checked for [0,1], has_contradiction compared with model; (c) first-order programs with crossed facts, facts arriving between calls and "
+                       "flush(): after every call has_contradiction() vs the rows of all tables, and vs the model")
     rep.sample({"alpha": "3/4", "bounds": ["49/64", "3/4"]})
     if first_dis is not None and not rep.violations:
         rep.extra["first_disagreement"] = {"program": streams.ser(first_dis["prog"]), "at": first_dis["disagreements"][:3]}
